@@ -21,8 +21,13 @@ ALPHABET = [
     # one binary message whose frame is exactly as long as the client's receive buffer (65536 bytes): a read that
     # fills the buffer to the last byte, with nothing behind it
     "binary_64k",
+    # the server stays connected and keeps talking without ever completing anything: one enormous frame whose payload
+    # trickles in, a byte every 0.9 s, for ever (no event ever results, and the socket is readable before every poll
+    # interval has passed): only a timer can end this, and the timers must still run
+    "chatter",
 ]
-ENDERS = ("eof", "reset", "silence", "tls_error", "io_error")
+ENDERS = ("eof", "reset", "silence", "tls_error", "io_error", "chatter")
+CHATTER_HORIZON = 150.0
 # the connection goes through an HTTP proxy: what the proxy does with the CONNECT request
 PROXY_KINDS = ["ok", "407", "stall", "stall_mid", "eof", "eof_mid", "reset_mid", "garbage"]
 PROXY_200 = b"HTTP/1.1 200 Connection established\r\nVia: 1.1 p\r\n\r\n"
@@ -65,7 +70,7 @@ MESSAGE_LIKE = {"text", "binary", "ping", "pong", "poll", "closing", "closed"}
 TERMINAL = {"connect_fail", "disconnected"}
 
 
-def step_to_script(name):
+def step_to_script(name, open_message=False):
     """alphabet symbol -> list of script steps"""
     if name == "reply":
         return [["stream", [["reply", None]], "whole", 0.0]]
@@ -108,6 +113,10 @@ def step_to_script(name):
         return [["reset", 0.0, name]]
     if name == "silence":
         return []
+    if name == "chatter":
+        # a continuation if a fragmented message is open, else a new binary message
+        head = B(wire.CONT if open_message else wire.BINARY, b"", fin=0, form=64, declared_len=1 << 30)
+        return [["stream", [["bytes", head]], "whole", 0.0]] + [["stream", [["bytes", b"c"]], "whole", 0.9]] * int(CHATTER_HORIZON / 0.9 + 2)
     raise ValueError(name)
 
 
@@ -262,7 +271,7 @@ class C07(Prop):
         after the request times out or raises), ending with EOF or with a silent server."""
         for first in ("reply", "reply_deflate"):
             for mid in ALPHABET[5:17]:
-                for end in ("silence", "eof"):
+                for end in ("silence", "eof", "chatter"):
                     for oi in range(len(OPTION_SETS)):
                         for pi in range(len(POLICIES)):
                             for k in (1, 2, 3):
@@ -280,7 +289,7 @@ class C07(Prop):
                     for first in ("reply", "reply_deflate", "reply_403", "eof", "half_frame"):
                         if first in ("reply", "reply_deflate"):
                             for mid in ALPHABET[5:17]:
-                                for end in ("eof", "silence", "reset"):
+                                for end in ("eof", "silence", "reset", "chatter"):
                                     yield {"steps": [first, mid, end], "policy": pi, "opts": oi, "proxy": "ok", "tls": secure}
                         else:
                             yield {"steps": [first] if first == "eof" else [first, "eof"], "policy": pi, "opts": oi,
@@ -316,7 +325,7 @@ class C07(Prop):
         rest = st.lists(st.sampled_from(ALPHABET[5:17] + ["text", "ping", "short_silence"]), max_size=39)
         return st.fixed_dictionaries({
             "first": first, "rest": rest,
-            "end": st.sampled_from(["eof", "eof", "reset", "silence", "tls_error", "tls_eof", "io_error"]),
+            "end": st.sampled_from(["eof", "eof", "reset", "silence", "tls_error", "tls_eof", "io_error", "chatter"]),
             "tls": gen.weighted([(3, st.just(False)), (1, st.just(True))]),
             "proxy": gen.weighted([(5, st.none()), (1, st.sampled_from(PROXY_KINDS))]),
             # an earlier connection in this process (same WebSocket object or another) and how it ended
@@ -361,8 +370,10 @@ class C07(Prop):
         elif not tunnel:
             pass          # the proxy exchange fails: nothing of the history is ever reached
         else:
+            open_message = False
             for s in steps:
-                script.extend(step_to_script(s))
+                script.extend(step_to_script(s, open_message))
+                open_message = {"text_frag": True, "cont_fin": False}.get(s, open_message)
             if steps[-1] not in ENDERS + ("tls_eof",):
                 script.append(["eof", 0.0])
             if addrs:
@@ -370,12 +381,13 @@ class C07(Prop):
             if case.get("send_fault"):
                 att["faults"] = {"send": {str(case["send_fault"][0]): case["send_fault"][1]}}
                 labels.add("send_fault")
-        silent_end = bool(steps) and steps[-1] == "silence" and tunnel
+        silent_end = bool(steps) and steps[-1] in ("silence", "chatter") and tunnel
+        chatter = bool(steps) and steps[-1] == "chatter" 
         tls = bool(case.get("tls")) or (bool(steps) and steps[-1].startswith("tls_"))
         if tls:
             labels.add("wss")
         scn = build.scenario(script, connect_opts=copts, reactions=reactions, attempt_extra=att, ws_opts=ws_opts,
-                             horizon=600.0 if silent_end else None, **({"url": "wss://example.test/"} if tls else {}))
+                             horizon=(CHATTER_HORIZON if chatter else 600.0) if silent_end else None, **({"url": "wss://example.test/"} if tls else {}))
         tr = simnet.run_scenario(scn)
         names = tr.names()
         faulty = bool(set(steps) & {"rsv_frame", "bad_utf8", "half_frame", "reset", "reply_17k", "tls_error", "tls_eof",
